@@ -1,0 +1,25 @@
+//go:build verif
+
+package p2p
+
+// Contracts checked by /verif (gvc). This file contains comments only and is compiled only with -tags verif.
+// Property C15: corrupted, truncated or hostile encrypted frames are rejected without a panic: every slice expression of the
+// frame reader is in bounds for all header contents (the cipher, MAC and RLP calls are abstracted: unknown effects).
+
+//@ func readInt24(b)
+//@   safety
+//@   requires len(b) >= 3
+//@   ensures[24-bit] result < pow2(24)
+//@   modifies nothing
+
+//@ func putInt24(v, b)
+//@   safety
+//@   requires len(b) >= 3
+
+//@ func updateMAC(mac, block, seed)
+//@   safety
+//@   requires len(seed) >= 16
+
+//@ func rlpxFrameRW.ReadMsg(rw)
+//@   safety
+//@   requires rw != nil
